@@ -56,13 +56,38 @@ def cls_li_label_arith(case):
     return has_label and any(op in operand for op in '+-*/&|^~<>') and '%offset' not in operand.replace('-', '')
 
 
+DATA_HEADS = ('db', 'dh', 'dw', 'dd', 'pack', 'bytes', 'shorts', 'ints', 'longs', 'longlongs', 'string', 'align',
+              'include', 'include_bytes')
+
+
+def _head(line):
+    t = line.split('#')[0].split()
+    return t[0].lower() if t else ''
+
+
 def cls_compress_label_imm(case):
-    """KF-A (-c): with compression on, the failing line is a non-branch instruction whose immediate
-    mentions a label: the compression rule consulted a value that later moved"""
+    """KF-A / KF-B (-c): with compression on, the failing line is an instruction or li (not a data
+    directive, not a plain branch/jump target) whose immediate mentions a label: a compression
+    rule consulted a value that later moved"""
     if not case.get('compress', True):
         return False
+    line = _failing_line(case)
+    if _head(line) in DATA_HEADS:
+        return False
     labels = _label_names(case)
-    return _mentions_label_outside_offset(_failing_line(case), labels)
+    return _mentions_label_outside_offset(line, labels)
+
+
+def cls_compress_drops_label_imm(case):
+    """KF-A (-c, value changed): the failing line is an addi / jalr (or mv-like) whose label-dependent
+    immediate was 0 at decision time, so the rule chosen (c.mv, c.nop, c.jr, c.jalr) has no
+    immediate field at all"""
+    if not case.get('compress', True):
+        return False
+    line = _failing_line(case)
+    if _head(line) not in ('addi', 'jalr'):
+        return False
+    return _mentions_label_outside_offset(line, _label_names(case))
 
 
 def cls_program_label_imm(case):
@@ -70,7 +95,7 @@ def cls_program_label_imm(case):
     instruction whose immediate mentions a label"""
     labels = _label_names(case)
     return any(_mentions_label_outside_offset(l, labels) for l in _program_lines(case)
-               if not l.strip().lower().startswith(('dw', 'dd', 'dh', 'db', 'pack')))
+               if _head(l) not in DATA_HEADS)
 
 
 CLASSES = {
@@ -78,6 +103,7 @@ CLASSES = {
     'li-offset': cls_li_offset,
     'li-label-arith': cls_li_label_arith,
     'compress-label-imm': cls_compress_label_imm,
+    'compress-drops-label-imm': cls_compress_drops_label_imm,
 }
 
 
